@@ -135,7 +135,7 @@ contract('AdbDevice._filesync_read',
          modifies=IO_MOD + RD_MOD + FS_MOD + ['G.fi', 'G.spos', 'G.sync_flushed'],
          ghost_exit=[('G.fi', 'store(G.fi, {0}, G.fi[{0}] + 1)'.format(LID))],
          defines=['result[0] == FS_id({0}, {1})'.format(LID, FI),
-                  'implies(result[0] != STAT, same(result[2], FS_data({0}, {1})))'.format(LID, FI),
+                  'implies(result[0] != STAT and not isnone(result[2]), same(result[2], FS_data({0}, {1})))'.format(LID, FI),
                   'implies(len(result[1]) >= 1, result[1][0] == FS_w({0}, {1}, 1))'.format(LID, FI),
                   'implies(len(result[1]) >= 2, result[1][1] == FS_w({0}, {1}, 2))'.format(LID, FI),
                   'implies(len(result[1]) >= 3, result[1][2] == FS_w({0}, {1}, 3))'.format(LID, FI),
